@@ -132,6 +132,8 @@ func historyBFS[T any](r *Run, sp *c12Space[T]) {
 						hoffs := sp.offs
 						if hoffs == nil {
 							hoffs = []int{0}
+						} else if !r.quick() {
+							hoffs = append(append([]int(nil), hoffs...), 1, 255, 4099)
 						}
 						for ck := 0; ck < len(hoffs)*len(in); ck++ {
 							c, k := ck%len(in)+1, hoffs[ck/len(in)]
@@ -255,6 +257,9 @@ func checkC12(r *Run) {
 		"a post-reset state whose full key equals a new object's is clean by construction; every other (dirty) state is tested on every menu input one-shot and with every single cut against a new object",
 		"chunked abandon (several calls before abandoning) reaches the same states as one call by C01/C02"}
 	caps := []int{-1, 0, 1, 2, 8}
+	if !r.quick() {
+		caps = []int{-1, 0, 1, 2, 3, 4, 5, 8, 40}
+	}
 	var mcf []Cfg
 	for _, h := range []int{-1, 2, 8} {
 		for _, v := range caps {
@@ -286,6 +291,13 @@ func checkC12(r *Run) {
 			o.Init(nil, mkHdrs(cfg.HdrCap), mkVals(cfg.ValCap))
 			sipsp.ParseSIPMsg([]byte("REGISTER sip:r SIP/2.0\r\nContact: <sip:one@h>\r\nl: 0\r\n\r\n"), 0, o, 0)
 			o.Init(nil, ah, av)
+		}},
+		// the used object is copied by value (Go structs are) and the copy is initialised and used from then on
+		{"CopyInit", func(o *sipsp.PSIPMsg, cfg *Cfg) {
+			n := new(sipsp.PSIPMsg)
+			*n = *o
+			n.Init(nil, sameHdrs(n, cfg), sameVals(n.PV.Contacts.Vals, cfg))
+			*o = *n
 		}},
 	}, offs: []int{0, 32}}
 	var hcf []Cfg
